@@ -169,6 +169,19 @@ R_C05_obj(S, v, kind, out, dobs) ==
                   /\ (ok = {FALSE} => RawSame(ps.default, OGet(out, nm)))
             ELSE OHas(out, nm) => OGet(out, nm).k = "np"
 
+
+(* the documented waiver: an object CLASS (type: object) accepts data that  *)
+(* omits a required property whose schema declares a default               *)
+StripWaived(S) ==
+  IF ~Has(S, "required") \/ ~Has(S, "properties") THEN S
+  ELSE [S EXCEPT !.required =
+          SelectSeq(S.required, LAMBDA n :
+             ~(PairsHasKey(S.properties, n) /\ ~IsBoolSchema(PairsGet(S.properties, n))
+               /\ Has(PairsGet(S.properties, n), "default")))]
+R_C05_waive(S, v, kind) ==
+  (DefaultsApply(S) /\ Has(S, "type") /\ S.type = "object" /\ v.k = "obj"
+     /\ Allowed(StripWaived(S), v) = {TRUE}) => kind = "ok"
+
 (* calling an element with no value: ITS OWN default (edef = the default   *)
 (* attribute observed on the element, NP if none) on the same terms;        *)
 (* dconv = observation of calling the element on that default explicitly    *)
